@@ -106,6 +106,7 @@ class Prop(GraphProp):
             {**base, "herm": True, "domain": "sq", "sq_modes": 1, "sizes": [1, 1], "npert": 1, "terms": [[1]], "cap": 2, "comps": [comp]},
             {**base, "herm": True, "domain": "sym", "sizes": [1, 2], "npert": 1, "terms": [[1]], "real": True,
              "comps": [{**comp, "fd": [1]}]},
+            {**base, "herm": True, "sizes": [1, 3], "npert": 1, "terms": [[1]], "fmt": "implicit", "cap": 2, "comps": [{**comp, "kpm": False}]},
         ]
         if tier == "thorough":
             fam += [
